@@ -248,7 +248,7 @@ func MonitorC02(w *plugin.World, step int) []hx.Violation {
 		}
 	case "bind":
 		if !strings.HasPrefix(w.LastOp.Result, "ok ips=") {
-			if len(owned) > 0 {
+			if len(owned) > 0 && !hasRanges(pod) { // with requested ranges a bind may allocate for the ranges not yet owned
 				if fr := freshFor(); len(fr) > 0 {
 					viol("fresh-ip-while-reserved-exists", fmt.Sprintf("%q owned %v; the failed bind left %v allocated to it", key, ipList(owned), ipStrs(fr)))
 				}
